@@ -139,7 +139,9 @@ impl Five {
     #[must_use]
     pub fn is_straight(&self) -> bool {
         let rank_bits = self.or_rank_bits();
-        ((rank_bits.trailing_zeros() + rank_bits.leading_zeros()) == Five::STRAIGHT_PADDING)
+        // The padding test only measures the span of the rank bits, so also insist on five ranks.
+        (rank_bits.count_ones() == 5
+            && (rank_bits.trailing_zeros() + rank_bits.leading_zeros()) == Five::STRAIGHT_PADDING)
             || rank_bits == Five::WHEEL_OR_BITS
     }
 
